@@ -218,9 +218,12 @@ pub fn small_shapes() -> Vec<Skeleton> {
         let dynsz = layout(Kind::Dyn, enc.class).size as u64;
         let ehsz = layout(Kind::Ehdr, enc.class).size as u64;
         let phsz = layout(Kind::Phdr, enc.class).size as u64;
+        // addresses as a linker assigns them: one PT_LOAD maps the whole file at 0x10000, the other
+        // segments' addresses follow from their offsets
         s.segs = vec![
-            Seg { p_type: PT_DYNAMIC, flags: 6, vaddr: 0, paddr: 0, align: 8, memsz_extra: 0, target: SegTarget::Range { offset: ehsz + 2 * phsz, filesz: 2 * dynsz } },
-            Seg { p_type: PT_NOTE, flags: 4, vaddr: 0, paddr: 0, align: 4, memsz_extra: 1, target: SegTarget::Range { offset: ehsz + 2 * phsz + 2 * dynsz, filesz: 20 } },
+            Seg { p_type: PT_DYNAMIC, flags: 6, vaddr: 0x10000 + ehsz + 3 * phsz, paddr: 0, align: 8, memsz_extra: 0, target: SegTarget::Range { offset: ehsz + 3 * phsz, filesz: 2 * dynsz } },
+            Seg { p_type: PT_NOTE, flags: 4, vaddr: 0x10000 + ehsz + 3 * phsz + 2 * dynsz, paddr: 0, align: 4, memsz_extra: 1, target: SegTarget::Range { offset: ehsz + 3 * phsz + 2 * dynsz, filesz: 20 } },
+            Seg { p_type: PT_LOAD, flags: 5, vaddr: 0x10000, paddr: 0, align: 0x1000, memsz_extra: 0, target: SegTarget::Range { offset: 0, filesz: ehsz + 3 * phsz + 2 * dynsz + 20 } },
         ];
         let mut b = build(&s);
         let mut body = Vec::new();
@@ -229,6 +232,19 @@ pub fn small_shapes() -> Vec<Skeleton> {
         body.extend_from_slice(&build_notes(enc.order, 4, &[NoteSpec { n_type: 3, name: b"GNU\0".to_vec(), desc: vec![1, 2, 3, 4] }], 0));
         b.bytes.extend_from_slice(&body);
         v.push(Skeleton { name: format!("phdrs-only/{}", enc.name()), enc, bytes: b.bytes, sites: b.sites, generated: true });
+        // the same with a PT_DYNAMIC that designates only the first of three entries: no DT_NULL
+        // inside the segment, more entries and the terminator right behind it
+        {
+            let mut s = Spec::new(enc, TableOrder::TablesFirst);
+            s.no_shdrs = true;
+            s.segs = vec![Seg { p_type: PT_DYNAMIC, flags: 6, vaddr: 0, paddr: 0, align: 8, memsz_extra: 0, target: SegTarget::Range { offset: ehsz + phsz, filesz: dynsz } }];
+            let mut b = build(&s);
+            for (t, val) in [(1u64, 5u64), (14, 7), (0, 0)] {
+                b.bytes.extend_from_slice(&encode(Kind::Dyn, enc, &[t, val], 0));
+            }
+            b.bytes.extend_from_slice(&[0x5a; 9]);
+            v.push(Skeleton { name: format!("phdrs-only-unterminated-dynamic/{}", enc.name()), enc, bytes: b.bytes, sites: b.sites, generated: true });
+        }
         // shdrs only
         let mut s = Spec::new(enc, TableOrder::TablesFirst);
         s.secs = vec![Sec::new(b".text", SHT_PROGBITS, vec![0x90; 7]), Sec::new(b".comment", SHT_PROGBITS, b"x\0".to_vec())];
